@@ -231,7 +231,8 @@ pub fn generate(rng: &mut Rng, fault_free: bool) -> K16 {
 
     let nsess_accept = if retry { 1 + rng.usize_below(3) } else { 1 };
     let mut sessions = vec![];
-    let total_lines = 3 + rng.usize_below(if simcore::deep() && rng.chance(0.33) { 120 } else if for_1090 { 30 } else { 38 });
+    let deep = simcore::deep() && rng.chance(0.33);
+    let total_lines = 3 + rng.usize_below(if deep { 120 } else if for_1090 { 30 } else { 38 });
     for si in 0..nsess_accept {
         if retry || (!for_1090 && !fault_free && rng.chance(0.2)) {
             // server not (yet) up: refused / timed-out connects before this accept
